@@ -9,7 +9,10 @@
      mptcore/array/array_clone.c    mpt_array_clone (handle assignment / release)
      mpt++/array.cpp                buffer::trim / skip / copy / move / append
      mptcore/array.h                content<T>::set_length
-   as they are AFTER the fix: commits of the worktree (see docs/notes_C05.md).
+   as they are AFTER the fix: commits of /repo and the two proposed patches docs/C05_set_noinit_copy.diff,
+   docs/C05_detach_nofini.diff (see docs/notes_C05.md).  The SHAPE of the content traits (init and fini /
+   fini only / init only, [eshape]) is a parameter: it decides which branches run the init loop, the
+   zero fill and the finaliser loops.
 
    Element slots carry TOKENS.  The data area of a typed buffer is a list of
    slots of the element size; a slot holds the byte pattern of a constructed
@@ -54,7 +57,25 @@ Definition okind_eqb (a b : option kind) : bool :=
 (* element sizes of the two harness traits, header size and page size of _mpt_buffer_alloc *)
 (* [ecopyfail]: the copy constructor of the element type refuses every source (library type
    "command" whose source elements carry a handler, kind A only); default construction still works *)
-Record env := mkenv { eszA : nat; eszB : nat; ehdr : nat; epage : nat; ecopyfail : bool }.
+(* SHAPE of the content traits (both harness traits of a case have the same shape):
+     ShFull  init and fini
+     ShFini  fini only: the library cannot construct an element.  Where it makes slots part of the
+             content without the caller (gap in front of an insert / set position, mpt_buffer_set
+             without source data) it zero-fills them; the zero pattern is the EMPTY element of such a
+             type (mpt::reference<T> with a null pointer).  The caller (harness) takes note of every
+             empty element the library created right after the call and from then on treats it as
+             element number t; the model logs this as [EInit t None] at the place of the memset.
+     ShInit  init only: nothing is ever called when an element leaves the content.  Where the code
+             has "if (fini) for (...) fini(...)" the model runs the same loop as a GHOST: the slot bytes
+             stay as they are and [EFini t] records that element t was abandoned there (not printed
+             when compared with the implementation, which has nothing to print). *)
+Inductive shape := ShFull | ShFini | ShInit.
+Definition sh_init (s : shape) : bool := match s with ShFini => false | _ => true end.
+Definition sh_fini (s : shape) : bool := match s with ShInit => false | _ => true end.
+
+Record env := mkenv { eszA : nat; eszB : nat; ehdr : nat; epage : nat; ecopyfail : bool; eshape : shape }.
+Definition ehi (e : env) : bool := sh_init (eshape e).
+Definition ehf (e : env) : bool := sh_fini (eshape e).
 Definition esz (e : env) (k : kind) : nat := match k with KA => eszA e | KB => eszB e end.
 
 Record ctx := mkctx { cnext : nat; cscript : list bool; clog : list event }.
@@ -80,12 +101,17 @@ Definition setnth {A} (i : nat) (x : A) (l : list A) : list A := firstn i l ++ x
 
 (* ------------------------------------------------------------------ element callbacks *)
 
-(* traits->fini(ptr + off) on a block of [bsz] bytes with elements of [sz] bytes *)
-Definition fini_at (sz bsz off : nat) (sl : list slot) (c : ctx) : res (list slot * ctx) :=
+(* what the bytes of element t are after it left the content: the finaliser of the harness traits
+   marks them; without a finaliser ([hf] = false) nothing touches them *)
+Definition dead (hf : bool) (t : nat) : slot := if hf then SDead t else STok t.
+
+(* traits->fini(ptr + off) on a block of [bsz] bytes with elements of [sz] bytes;
+   [hf] = false: the traits have no finaliser, the element is abandoned (ghost step) *)
+Definition fini_at (hf : bool) (sz bsz off : nat) (sl : list slot) (c : ctx) : res (list slot * ctx) :=
   if off + sz <=? bsz then
     if off mod sz =? 0 then
       match nth_error sl (off / sz) with
-      | Some (STok t) => Ok (setnth (off / sz) (SDead t) sl, logev (EFini t) c)
+      | Some (STok t) => Ok (setnth (off / sz) (dead hf t) sl, logev (EFini t) c)
       | Some (SDead t) => Ok (sl, logev (EFiniBad (Some t)) c)
       | Some SRaw => Ok (sl, logev (EFiniBad None) c)
       | None => Fault
@@ -109,9 +135,12 @@ Definition construct_at (sz bsz off : nat) (src : option slot) (sl : list slot) 
     Ok (setnth (off / sz) (STok n) sl, mkctx (S n) (cscript c) (init_event n src :: clog c))
   else Fault.
 
-(* traits->init(ptr + off, src): consumes one script entry; false = refused, target untouched *)
-Definition init_at (cf : bool) (sz bsz off : nat) (src : option slot) (sl : list slot) (c : ctx)
+(* traits->init(ptr + off, src): consumes one script entry; false = refused, target untouched.
+   [hi] = false: the traits have no init function; the slot is zero-filled instead and the caller
+   adopts the empty element (cannot fail, no script entry) *)
+Definition init_at (hi cf : bool) (sz bsz off : nat) (src : option slot) (sl : list slot) (c : ctx)
   : res (list slot * ctx * bool) :=
+  if negb hi then do '(sl', c') <- construct_at sz bsz off None sl c; Ok (sl', c', true) else
   if cf && match src with Some _ => true | None => false end then Ok (sl, c, false) else
   match cscript c with
   | false :: r => Ok (sl, mkctx (cnext c) r (clog c), false)
@@ -124,30 +153,31 @@ Definition init_at (cf : bool) (sz bsz off : nat) (src : option slot) (sl : list
 (* ------------------------------------------------------------------ loops *)
 
 (* for (i = from; i < lim; i += sz) fini(base + i);  fuel: number of iterations allowed *)
-Fixpoint fini_loop (fuel sz bsz base i lim : nat) (sl : list slot) (c : ctx) : res (list slot * ctx) :=
+Fixpoint fini_loop (hf : bool) (fuel sz bsz base i lim : nat) (sl : list slot) (c : ctx) : res (list slot * ctx) :=
   if i <? lim then
     match fuel with
     | 0 => Fault
-    | S f => do '(sl', c') <- fini_at sz bsz (base + i) sl c; fini_loop f sz bsz base (i + sz) lim sl' c'
+    | S f => do '(sl', c') <- fini_at hf sz bsz (base + i) sl c; fini_loop hf f sz bsz base (i + sz) lim sl' c'
     end
   else Ok (sl, c).
 
 (* for (off = from; off < lim; off += sz) if (init(ptr + off, 0) < 0) stop;
-   result: position reached, and whether the loop ran to the end *)
-Fixpoint gap_loop (fuel sz bsz off lim : nat) (sl : list slot) (c : ctx)
+   result: position reached, and whether the loop ran to the end.
+   [hi] = false: memset(ptr + from, 0, lim - from), the empty elements adopted one by one *)
+Fixpoint gap_loop (hi : bool) (fuel sz bsz off lim : nat) (sl : list slot) (c : ctx)
   : res (list slot * ctx * nat * bool) :=
   if off <? lim then
     match fuel with
     | 0 => Fault
     | S f =>
-      do '(sl', c', ok) <- init_at false sz bsz off None sl c;
-      if ok then gap_loop f sz bsz (off + sz) lim sl' c' else Ok (sl', c', off, false)
+      do '(sl', c', ok) <- init_at hi false sz bsz off None sl c;
+      if ok then gap_loop hi f sz bsz (off + sz) lim sl' c' else Ok (sl', c', off, false)
     end
   else Ok (sl, c, off, true).
 
 (* the copy loop of mpt_buffer_set: [k] indexes the source elements.
    result: count, and [Some pos] when copy AND default construction failed at pos *)
-Fixpoint copy_loop (cf : bool) (fuel sz bsz pos lim k : nat) (src : option (list slot)) (count : nat)
+Fixpoint copy_loop (hi cf : bool) (fuel sz bsz pos lim k : nat) (src : option (list slot)) (count : nat)
   (sl : list slot) (c : ctx) : res (list slot * ctx * nat * option nat) :=
   if pos <? lim then
     match fuel with
@@ -159,13 +189,13 @@ Fixpoint copy_loop (cf : bool) (fuel sz bsz pos lim k : nat) (src : option (list
         | Some s =>
           match nth_error s k with
           | None => Fault                    (* source read past the source array *)
-          | Some x => init_at cf sz bsz pos (Some x) sl c
+          | Some x => init_at hi cf sz bsz pos (Some x) sl c
           end
         end;
-      if copied then copy_loop cf f sz bsz (pos + sz) lim (S k) src (S count) sl1 c1
+      if copied then copy_loop hi cf f sz bsz (pos + sz) lim (S k) src (S count) sl1 c1
       else
-        do '(sl2, c2, ok) <- init_at false sz bsz pos None sl1 c1;
-        if ok then copy_loop cf f sz bsz (pos + sz) lim (S k) src count sl2 c2
+        do '(sl2, c2, ok) <- init_at hi false sz bsz pos None sl1 c1;
+        if ok then copy_loop hi cf f sz bsz (pos + sz) lim (S k) src count sl2 c2
         else Ok (sl2, c2, count, Some pos)
     end
   else Ok (sl, c, count, None).
@@ -195,26 +225,35 @@ Definition zero_slots (sz bsz off n : nat) (sl : list slot) : res (list slot) :=
 Inductive ret := RCount (n : nat) | RErr (e : err).
 
 (* the part of mpt_buffer_set behind the argument checks, typed target with elements of [elem] bytes:
-   [cf] = the copy constructor refuses every source *)
-Definition buffer_set_typed (cf : bool) (b : buf) (elem pos end_ : nat) (src : option (list slot)) (c : ctx)
+   [cf] = the copy constructor refuses every source.
+   Without init function the code zero-fills the gap and the target ("generic data copy" with
+   memset) and returns len / elem_size; source data of elements that have a finaliser is refused
+   (AS PATCHED by docs/C05_set_noinit_copy.diff: a byte copy would be finalised twice). *)
+Definition buffer_set_typed (sh : shape) (cf : bool) (b : buf) (elem pos end_ : nat) (src : option (list slot)) (c : ctx)
   : res (buf * ctx * ret) :=
+  let hi := sh_init sh in
+  let hf := sh_fini sh in
+  if negb hi && hf && (match src with Some _ => true | None => false end) && (pos <? end_)
+  then Ok (b, c, RErr BadOperation) else
+  let src := if hi then src else None in
   let used := bused b - bused b mod elem in
   let bsz := bsize b in
   (* terminate overlapping target data: [pos, min(end, used)) *)
   let ovl := if end_ <? used then end_ else used in
-  do '(sl1, c1) <- fini_loop (S used) elem bsz 0 pos ovl (bslots b) c;
+  do '(sl1, c1) <- fini_loop hf (S used) elem bsz 0 pos ovl (bslots b) c;
   (* initialize prepending data *)
-  do '(sl2, c2, off, ok) <- gap_loop (S pos) elem bsz used pos sl1 c1;
+  do '(sl2, c2, off, ok) <- gap_loop hi (S pos) elem bsz used pos sl1 c1;
   if negb ok then Ok (with_used (with_slots b sl2) off, c2, RErr BadOperation) else
   (* prepare target and copy data *)
-  do '(sl3, c3, count, failed) <- copy_loop cf (S end_) elem bsz pos end_ 0 src 0 sl2 c2;
+  do '(sl3, c3, count, failed) <- copy_loop hi cf (S end_) elem bsz pos end_ 0 src 0 sl2 c2;
   match failed with
   | Some p =>
     (* invalidate remaining data as result of fatal error *)
-    do '(sl4, c4) <- fini_loop (S used) elem bsz 0 end_ used sl3 c3;
+    do '(sl4, c4) <- fini_loop hf (S used) elem bsz 0 end_ used sl3 c3;
     Ok (with_used (with_slots b sl4) p, c4, RCount count)
   | None =>
-    Ok (with_used (with_slots b sl3) (if used <? end_ then end_ else used), c3, RCount count)
+    Ok (with_used (with_slots b sl3) (if used <? end_ then end_ else used), c3,
+        RCount (if hi then count else (end_ - pos) / elem))
   end.
 
 (* mpt_buffer_set(buf, src_traits, pos, src_data, len) *)
@@ -238,7 +277,7 @@ Definition buffer_set (e : env) (b : buf) (st : option kind) (pos : nat) (src : 
       then Ok (b, c, RErr BadArgument) else
       (* compatible types must share finalizer and size: the two harness traits do not *)
       if negb (kind_eqb k ks) then Ok (b, c, RErr BadType) else
-      buffer_set_typed (ecopyfail e && kind_eqb k KA) b elem pos end_ src c
+      buffer_set_typed (eshape e) (ecopyfail e && kind_eqb k KA) b elem pos end_ src c
     end
   end.
 
@@ -256,7 +295,7 @@ Definition buffer_cut (e : env) (b : buf) (off len0 : nat) (c : ctx) : res (buf 
     let size := esz e k in
     if (size =? 0) || negb (off mod size =? 0) || negb (len mod size =? 0)
     then Ok (b, c, RErr BadArgument) else
-    do '(sl1, c1) <- fini_loop (S len) size (bsize b) off 0 len (bslots b) c;
+    do '(sl1, c1) <- fini_loop (ehf e) (S len) size (bsize b) off 0 len (bslots b) c;
     let keep' := keep - off in
     do sl2 <- move_slots size (bsize b) off (off + len) keep' sl1;
     Ok (with_used (with_slots b sl2) (off + keep'), c1, RCount (off + keep'))
@@ -285,7 +324,7 @@ Definition buffer_insert (e : env) (b : buf) (pos len : nat) (c : ctx)
     (* move data after insert position *)
     do sl1 <- move_slots size bsz (total - keep) pos keep (bslots b);
     (* init all new data *)
-    do '(sl2, c2, reached, ok) <- gap_loop (S pos) size bsz used pos sl1 c;
+    do '(sl2, c2, reached, ok) <- gap_loop (ehi e) (S pos) size bsz used pos sl1 c;
     if ok then Ok (with_used (with_slots b sl2) total, c2, true)
     else
       (* a refused constructor ends the buffer at the last constructed element *)
@@ -336,7 +375,7 @@ Definition unref (e : env) (w : world) (id : nat) : res world :=
       let size := esz e k in
       if size =? 0 then Ok (hput w id None (wctx w)) else
       let len := bused b - bused b mod size in
-      do '(_, c1) <- fini_loop (S len) size (bsize b) 0 0 len (bslots b) (wctx w);
+      do '(_, c1) <- fini_loop (ehf e) (S len) size (bsize b) 0 0 len (bslots b) (wctx w);
       Ok (hput w id None c1)
     | None => Ok (hput w id None (wctx w))
     end
@@ -383,7 +422,9 @@ Definition detach (e : env) (w : world) (id : nat) (len0 : nat) : res (world * o
         | RCount _ => Ok (hput w2 nid (Some nb') c', Some nid)
         end
       else
-        (* last reference: move raw data, finalise what is cut off *)
+        (* last reference: move raw data, finalise what is cut off.  AS PATCHED by
+           docs/C05_detach_nofini.diff: the new size limits the moved data also when the traits have
+           no finaliser (the unpatched code copies all used bytes into the smaller block) *)
         let add := bused b in
         match tr with
         | None =>
@@ -392,7 +433,7 @@ Definition detach (e : env) (w : world) (id : nat) (len0 : nat) : res (world * o
         | Some _ =>
           if len <? add then
             let add1 := add - add mod esize in
-            do '(sl1, c1) <- fini_loop (S add1) esize (bsize b) 0 len add1 (bslots b) (wctx w1);
+            do '(sl1, c1) <- fini_loop (ehf e) (S add1) esize (bsize b) 0 len add1 (bslots b) (wctx w1);
             let moved := firstn (len / esize) sl1 in
             let nsl := moved ++ skipn (length moved) (bslots nb) in
             Ok (hput (hput w1 nid (Some (with_used (with_slots nb nsl) len)) c1) id None c1, Some nid)
@@ -496,7 +537,7 @@ Definition reserve_clear (e : env) (b : buf) (tr : option kind) (c : ctx) : res 
   | Some ko =>
     let size := esz e ko in
     let used := bused b - bused b mod size in
-    do '(sl1, c1) <- fini_loop (S used) size (bsize b) 0 0 used (bslots b) c;
+    do '(sl1, c1) <- fini_loop (ehf e) (S used) size (bsize b) 0 0 used (bslots b) c;
     Ok (with_used (with_slots b sl1) 0, c1)
   | None => Ok (with_used b 0, c)
   end.
@@ -553,7 +594,7 @@ Definition cxx_trim (e : env) (b : buf) (len0 : nat) (c : ctx) : res (buf * ctx 
   | Some k =>
     let size := esz e k in
     if (size =? 0) || negb (used mod size =? 0) || negb (len mod size =? 0) then Ok (b, c, false) else
-    do '(sl1, c1) <- fini_loop (S used) size (bsize b) 0 len used (bslots b) c;
+    do '(sl1, c1) <- fini_loop (ehf e) (S used) size (bsize b) 0 len used (bslots b) c;
     Ok (with_used (with_slots b sl1) len, c1, true)
   | None => Ok (with_used b len, c, true)
   end.
@@ -566,7 +607,7 @@ Definition cxx_skip (e : env) (b : buf) (len : nat) (c : ctx) : res (buf * ctx *
   | Some k =>
     let size := esz e k in
     if (size =? 0) || negb (len mod size =? 0) then Ok (b, c, false) else
-    do '(sl1, c1) <- fini_loop (S len) size (bsize b) 0 0 len (bslots b) c;
+    do '(sl1, c1) <- fini_loop (ehf e) (S len) size (bsize b) 0 0 len (bslots b) c;
     do sl2 <- move_slots size (bsize b) 0 len post sl1;
     Ok (with_used (with_slots b sl2) post, c1, true)
   | None => Ok (with_used b post, c, true)
